@@ -1,0 +1,34 @@
+//! Read-only accessors for verification machinery (compiled only with `--cfg inkayaku_verif`).
+
+use crate::board::constants::{ColorBits, PieceBits, SquareShiftBits, ZobristHash};
+use crate::board::precalculated::{BISHOP_MAGICS, BLACK_PAWN_NONMAGICS, KING_NONMAGICS, KNIGHT_NONMAGICS, ROOK_MAGICS, UnsafeMagicsExt, WHITE_PAWN_NONMAGICS};
+use crate::board::zobrist::Zobrist;
+
+pub fn rook_parts(square: usize) -> (u64, u64, u64, u32, &'static [u64]) { ROOK_MAGICS[square].verif_parts() }
+
+pub fn bishop_parts(square: usize) -> (u64, u64, u64, u32, &'static [u64]) { BISHOP_MAGICS[square].verif_parts() }
+
+pub fn rook_index(square: usize, occupancy: u64) -> usize { ROOK_MAGICS[square].verif_hash(occupancy) }
+
+pub fn bishop_index(square: usize, occupancy: u64) -> usize { BISHOP_MAGICS[square].verif_hash(occupancy) }
+
+/// The lookup exactly as the move generator performs it (unchecked indexing).
+pub fn rook_attacks(square: SquareShiftBits, occupancy: u64) -> u64 { ROOK_MAGICS.get_attacks(square, occupancy) }
+
+pub fn bishop_attacks(square: SquareShiftBits, occupancy: u64) -> u64 { BISHOP_MAGICS.get_attacks(square, occupancy) }
+
+pub fn king_table() -> [u64; 64] { KING_NONMAGICS }
+
+pub fn knight_table() -> [u64; 64] { KNIGHT_NONMAGICS }
+
+pub fn white_pawn_table() -> [u64; 64] { WHITE_PAWN_NONMAGICS }
+
+pub fn black_pawn_table() -> [u64; 64] { BLACK_PAWN_NONMAGICS }
+
+pub fn zobrist_piece_square(piece: PieceBits, square: SquareShiftBits, color: ColorBits) -> ZobristHash { Zobrist::piece_square_hash(piece, square, color) }
+
+pub fn zobrist_en_passant(square: SquareShiftBits) -> ZobristHash { Zobrist::en_passant_square_hash(square) }
+
+pub fn zobrist_castle(side: PieceBits, color: ColorBits) -> ZobristHash { Zobrist::castle_hash(side, color) }
+
+pub fn zobrist_black_to_move() -> ZobristHash { Zobrist::BLACK_TO_MOVE_HASH }
